@@ -97,13 +97,24 @@ def _s(b):
     return b.decode()      # values travel through the API as str (Suber._ser encodes, ._des decodes)
 
 
+TOPOPS = ("items", "itemstop", "fullitems", "trim")
+
+
 def c24_keys(ops):
-    return tuple(sorted({op[1] for op in ops if len(op) > 1 and op[0] != "items"}))
+    return tuple(sorted({op[1] for op in ops if len(op) > 1 and op[0] not in TOPOPS}))
 
 
 def c24_apply(sub, kind, op):
     try:
         name = op[0]
+        if name == "itemstop":
+            return tuple((sub.sep.join(k).encode(), enc(v)) for k, v in sub.getItemIter(op[1]))
+        if name == "fullitems":
+            return tuple((sub.sep.join(k).encode(), enc(v)) for k, v in sub.getFullItemIter(op[1]))
+        if name == "trim":
+            return enc(sub.trim(op[1]))
+        if name == "cnt" and len(op) == 1:
+            return enc(sub.cntAll())
         if kind == "plain":
             if name == "put":
                 return enc(sub.put(op[1], _s(op[2])))
@@ -208,6 +219,13 @@ NVALS = 7
 CLEAN = (0, 1, 2, 3, 4)        # pairwise different under ==, pairwise different serialisations
 
 
+INVALID = {-1: None, -2: "junk", -3: 7}      # arguments a Durq/Dusq must reject (push(None) is ignored) without any effect
+
+
+def c23_val(i):
+    return INVALID[i] if i < 0 else _vals()[i]
+
+
 def c23_open():
     from hio.base import during
     s = during.Subery(name="c23", headDirPath=_root(), reopen=True, temp=False, reuse=True)
@@ -280,20 +298,20 @@ def c23_run(case):
             else:
                 q = hold[keys[op[1]]]
                 if name == "push":
-                    res = q.push(vs[op[2]])
+                    res = q.push(c23_val(op[2]))
                 elif name == "pull":
                     res = q.pull()
                 elif name == "pullx":
                     res = q.pull(emptive=False)
                 elif name == "extend":
-                    vals = [vs[i] for i in op[2]]
+                    vals = [c23_val(i) for i in op[2]]
                     res = q.extend(vals) if kind == "durq" else q.update(vals)
                 elif name == "clear":
                     res = q.clear()
                 elif name == "remove" and kind == "dusq":
-                    res = q.remove(vs[op[2]])
+                    res = q.remove(c23_val(op[2]))
                 elif name == "count" and kind == "durq":
-                    res = q.count(vs[op[2]])
+                    res = q.count(c23_val(op[2]))
                 else:
                     raise core.Infra(f"bad op {op!r} for {kind}")
             if not (res is None or isinstance(res, (bool, int))):
